@@ -479,11 +479,16 @@ def _get(owner, name):
     return vars(owner)[name]
 
 
+class _Holder:
+    def __init__(self, v):
+        self.v = v
+
+
 class Snapshot:
     """Baseline of a set of roots with enough to put them back: identity of the root value, and for
     every container / exabgp instance reachable from it (depth 4) a shallow copy of its contents."""
 
-    def __init__(self, roots: dict, digests: bool = True):
+    def __init__(self, roots: dict, digests: bool = True, depth: int = _MAXD, stop=()):
         self.roots = roots
         self.values = {}
         self.nodes = {}   # root key -> list of (obj, kind, saved)
@@ -492,7 +497,7 @@ class Snapshot:
             v = _get(owner, name)
             self.values[key] = v
             nodes = []
-            self._walk(v, _MAXD, set(), nodes)
+            self._walk(v, depth, set(stop), nodes)
             self.nodes[key] = nodes
             if digests:
                 self.digests[key] = _digest(v)
@@ -538,6 +543,30 @@ class Snapshot:
                 out.append(key)
         return out
 
+    @staticmethod
+    def _node_differs(obj, kind, saved, missing=object()) -> bool:
+        if kind == 'dict':
+            return len(obj) != len(saved) or any(obj.get(k, missing) is not x for k, x in saved.items())
+        if kind == 'list':
+            return len(obj) != len(saved) or any(a is not b for a, b in zip(obj, saved))
+        if kind == 'set':
+            return obj != saved
+        dd = obj.__dict__
+        return len(dd) != len(saved) or any(dd.get(k, missing) is not x for k, x in saved.items())
+
+    def dirty(self, keys) -> bool:
+        """Did anything recorded under these roots change (identity of the root value, shallow content of every node)?"""
+        for key in keys:
+            owner, name = self.roots[key]
+            v = vars(owner).get(name, self)
+            base = self.values[key]
+            if v is not base and not (isinstance(base, _SCALARS) and not _is_exa_instance(base) and type(v) is type(base) and v == base):
+                return True
+            for obj, kind, saved in self.nodes[key]:
+                if self._node_differs(obj, kind, saved):
+                    return True
+        return False
+
     def restore(self, keys) -> None:
         for key in keys:
             owner, name = self.roots[key]
@@ -545,22 +574,19 @@ class Snapshot:
             if vars(owner).get(name, self) is not base:
                 setattr(owner, name, base)
             for obj, kind, saved in self.nodes[key]:
+                if not self._node_differs(obj, kind, saved):
+                    continue
                 if kind == 'dict':
-                    if len(obj) != len(saved) or any(obj.get(k, self) is not x for k, x in saved.items()):
-                        dict.clear(obj)
-                        dict.update(obj, saved)
+                    dict.clear(obj)
+                    dict.update(obj, saved)
                 elif kind == 'list':
-                    if len(obj) != len(saved) or any(a is not b for a, b in zip(obj, saved)):
-                        obj[:] = saved
+                    obj[:] = saved
                 elif kind == 'set':
-                    if obj != saved:
-                        obj.clear()
-                        obj.update(saved)
+                    obj.clear()
+                    obj.update(saved)
                 else:
-                    dd = obj.__dict__
-                    if len(dd) != len(saved) or any(dd.get(k, self) is not x for k, x in saved.items()):
-                        dd.clear()
-                        dd.update(saved)
+                    obj.__dict__.clear()
+                    obj.__dict__.update(saved)
 
     def canon(self, keys) -> tuple:
         return tuple((key, _digest(_get(*self.roots[key]))) for key in keys)
@@ -630,6 +656,7 @@ class Harness:
         self.canon_keys = []
         self.alone = {}      # (mode, letter) -> {'obs': tuple, 'rows': [...], 'wd': [...], 'applied': bool}
         self.memo = {}       # classification memo
+        self.pair_memo = {}  # verdicts of 1- and 2-letter sequences run from a reset process
         self.calibration = {}
 
     # -- calibration: which roots does the alphabet touch --------------------------------------------------------
@@ -729,7 +756,7 @@ class Harness:
         out[letter[0]] = sorted(tab.values())
         return out
 
-    def judge(self, mode, seq, decs, ribs_before, want_state, before_rerender=None):
+    def judge(self, mode, seq, decs, ribs_before, want_state, before_rerender=None, rerender_from: int = 0, canon=None):
         """The oracle for the last step of seq (decs = what every step returned, in order)."""
         w = self.w
         n = len(seq)
@@ -746,13 +773,13 @@ class Harness:
             mism.append(('rib', n - 1, bad, {b: ribs[b] for b in bad}, {b: expect[b] for b in bad}))
         info = {'outcome': core.digest(list(last.obs))}
         if want_state:
-            pstate = self.snap.canon(self.canon_keys)
+            pstate = canon() if canon is not None else self.snap.canon(self.canon_keys)
             info['pstate'] = core.digest(pstate)
             info['state'] = core.digest([pstate, ribs])
         if before_rerender is not None:
             before_rerender()
         for i, d in enumerate(decs):
-            if d.kind == 'none':
+            if d.kind == 'none' or i < rerender_from:
                 continue
             r = render(w, d)
             then = d.obs[2:5]
@@ -792,8 +819,8 @@ class Harness:
 
     def run_prefix(self, mode: str, prefix, visit, audit: bool = False) -> None:
         """Every one-letter extension of prefix, sharing the execution of the prefix: the process-wide hot roots and the
-        Adj-RIB-In tables are checkpointed after the prefix and put back before each extension.  A mismatch seen this way is never
-        reported as such: the sequence is run again from a reset process (evaluate) and that verdict is the one visited."""
+        Adj-RIB-In tables are checkpointed after the prefix and put back before each extension.  A mismatch seen this way is only a
+        lead: classify() reproduces it on a minimal sequence run from a reset process before it becomes a violation."""
         w = self.w
         prefix = [tuple(x) for x in prefix]
         self.reset(mode)
@@ -802,30 +829,55 @@ class Harness:
         roots.update(self.rib_roots())
         cp = Snapshot(roots, digests=False)
         keys = list(roots)
+        scalar_keys = [k for k in self.hot if isinstance(cp.values[k], _SCALARS) and k not in ATTR_CACHE_KEYS]
         ribs_before = rib_snapshot(w)
+        # the objects the prefix returned, to depth 7 (Update -> UpdateCollection -> AttributeCollection -> dict -> Attribute -> fields)
+        # (the session objects every message points at are not part of a message)
+        stop = [id(x) for sess in w['sessions'].values() for x in (sess['neighbor'], sess['neg'])]
+        graph = Snapshot({f'dec{i}': (_Holder(d.msg), 'v') for i, d in enumerate(decs)}, digests=False, depth=7, stop=stop)
+        gkeys = list(graph.roots)
+        base_canon = dict(self.snap.canon(self.canon_keys))
+
+        def canon():
+            return tuple((k, base_canon[k] if not cp.dirty([k]) else _digest(_get(*self.snap.roots[k]))) for k in self.canon_keys)
+
         for letter in LETTERS:
             cp.restore(keys)
             seq = prefix + [letter]
             collide = self.collides(seq)
             d = step(w, letter)
-            mism, info = self.judge(mode, seq, decs + [d], ribs_before, True)
+            # an earlier object is rendered again when the step touched anything it is made of (or a class-level scalar such
+            # as a rewritten ID); always for the short sequences and the audited prefixes
+            again = audit or len(prefix) < 2 or graph.dirty(gkeys) or cp.dirty(scalar_keys)
+            mism, info = self.judge(mode, seq, decs + [d], ribs_before, True, rerender_from=0 if again else len(prefix), canon=canon)
             info['collide'] = collide
-            if mism or audit:
+            # a mismatch seen here is only a lead: classify() runs the minimal sequence again from a reset process
+            if audit:
                 mism2, info2 = self.evaluate(mode, seq, want_state=True)
-                if audit and ([m[:2] for m in mism], info) != ([m[:2] for m in mism2], info2):
+                if ([m[:2] for m in mism], info) != ([m[:2] for m in mism2], info2):
                     raise core.HarnessError(f'checkpointed execution of {seq} differs from execution after a reset: '
                                             f'{[m[:3] for m in mism]} {info} vs {[m[:3] for m in mism2]} {info2}')
                 mism, info = mism2, info2
-                if audit:
-                    # the decoded objects of the prefix were rendered by evaluate(): run the prefix again
-                    self.reset(mode)
-                    decs = [step(w, x) for x in prefix]
-                    cp = Snapshot(roots, digests=False)
             visit(seq, mism, info)
+            if audit:
+                # evaluate() and classify() ran other sequences: run the prefix again
+                self.reset(mode)
+                decs = [step(w, x) for x in prefix]
+                cp = Snapshot(roots, digests=False)
+                graph = Snapshot({f'dec{i}': (_Holder(x.msg), 'v') for i, x in enumerate(decs)}, digests=False, depth=7, stop=stop)
 
     # -- classification -----------------------------------------------------------------------------------------
     def _has(self, mode, seq, kind, pos, intervene=None):
-        mism, _ = self.evaluate(mode, seq, intervene)
+        """The mismatch of that kind at that position when seq is run from a reset process, or None."""
+        key = None
+        if intervene is None and len(seq) <= 2:
+            key = (mode, tuple(seq))
+            mism = self.pair_memo.get(key)
+            if mism is None:
+                mism, _ = self.evaluate(mode, seq)
+                self.pair_memo[key] = mism
+        else:
+            mism, _ = self.evaluate(mode, seq, intervene)
         for m in mism:
             if m[0] == kind and m[1] == pos:
                 return m
